@@ -5,7 +5,7 @@ use crate::{
         GlobalDeclaration, IfStatement, Program, Statement, Variable, WhileStatement,
     },
     error::{SemanticErrorMessage, SplError},
-    ToRange,
+    Shiftable, ToRange,
 };
 use std::cmp::Ordering;
 
@@ -14,20 +14,19 @@ mod tests;
 
 /// Analyzes the given program for semantic errors.
 pub fn analyze(program: &mut Program, table: &GlobalTable) {
-    program
-        .global_declarations
-        .iter_mut()
-        .map(|r| r.as_mut())
-        .filter_map(|dec| match dec {
-            GlobalDeclaration::Procedure(proc) => Some(proc),
-            _ => None,
-        })
-        .for_each(|proc| {
+    program.global_declarations.iter_mut().for_each(|dec| {
+        let offset = dec.offset;
+        if let GlobalDeclaration::Procedure(proc) = dec.as_mut() {
             if let Some(name) = &proc.name {
                 let entry = table
                     .lookup(&name.value)
                     .expect("Named declaration without entry");
                 if let GlobalEntry::Procedure(proc_entry) = &entry {
+                    // A redeclared procedure has no entry of its own (the first declaration wins),
+                    // so its body must not be checked against the other procedure's local table.
+                    if proc_entry.range != proc.to_range().shift(offset) {
+                        return;
+                    }
                     let lookup_table = &LookupTable {
                         local_table: Some(&proc_entry.local_table),
                         global_table: Some(table),
@@ -37,7 +36,8 @@ pub fn analyze(program: &mut Program, table: &GlobalTable) {
                         .for_each(|stmt| stmt.analyze(lookup_table));
                 }
             }
-        });
+        }
+    });
 }
 
 trait AnalyzeStatement {
